@@ -53,8 +53,26 @@ class Project:
                     out.append(n)
         return out
 
+    def extras(self, c):
+        """Sources a command reads without declaring them: it names them in its dependency files (discovered inputs)."""
+        out = []
+        for f, xs in self.cmds[c].get("deps", []):
+            for x in xs:
+                if x not in out:
+                    out.append(x)
+        return out
+
+    def extra_sources(self):
+        out = []
+        for c in self.cmds:
+            for x in self.extras(c):
+                if x not in out:
+                    out.append(x)
+        return out
+
     def source_nodes(self):
-        return [n for n in self.nodes() if not is_virtual(n) and not self.producers(n)]
+        return [n for n in self.nodes() if not is_virtual(n) and not self.producers(n)] + \
+               [x for x in self.extra_sources() if x not in self.nodes()]
 
     def produced_by_tool(self, n):
         p = self.producers(n)
@@ -99,6 +117,7 @@ class Project:
         # a directory written by a directory-producing command is read entry by entry (sorted glob)
         reads = "".join(("cat %s/* 2>/dev/null; " % i.rstrip("/")) if self.produced_by_tool(i) == "dirshell" else
                         ("cat %s 2>/dev/null; " % i) for i in d["inputs"] if not is_virtual(i))
+        reads += "".join("cat %s 2>/dev/null; " % x for x in self.extras(name))
         if d["tool"] == "dirshell":
             # the declared output is a directory which the command recreates from scratch and populates
             D = d["outputs"][0].rstrip("/")
@@ -109,6 +128,12 @@ class Project:
             for j, o in enumerate(d["outputs"]):
                 if not is_virtual(o):
                     parts.append("(printf '%%s' '%s%d('; %sprintf ')') > %s" % (d["tag"], j, reads, o))
+        first = [o for o in d["outputs"] if not is_virtual(o)][:1] or ["x"]
+        for f, xs in d.get("deps", []):
+            if d.get("deps_style") == "dependency-info":
+                parts.append("env printf '\\000llbuild-verif\\000%s' > %s" % ("".join("\\020%s\\000" % x for x in xs), f))
+            else:
+                parts.append("printf '%s: %s\\n' > %s" % (first[0], " ".join(xs), f))
         parts.append("echo %s >> runlog" % name)
         return "; ".join(parts)
 
@@ -133,6 +158,9 @@ class Project:
                 L.append("    args: %s" % yq(self.script(name)))
             if d["tool"] == "symlink":
                 L.append("    contents: %s" % yq(d["contents"]))
+            if d.get("deps"):
+                L.append("    deps: [%s]" % ", ".join(yq(f) for f, xs in d["deps"]))
+                L.append("    deps-style: %s" % d["deps_style"])
         return "\n".join(L) + "\n"
 
     # ---- encoding for the model
@@ -140,7 +168,9 @@ class Project:
         tl = {"shell": "s", "phony": "p", "mkdir": "m", "symlink": "l", "dirshell": "s"}
         def fl(l):
             return "." if not l else ",".join(hx(x.encode()) for x in l)
-        cmds = ";".join(":".join([tl[d["tool"]], hx(n.encode()), fl(d["inputs"]), fl(d["outputs"]),
+        # the model has no discovery: a discovered input is presented to it as one more declared input (same contents read,
+        # in the same order); what discovery means for incremental builds is checked against the actual clean build
+        cmds = ";".join(":".join([tl[d["tool"]], hx(n.encode()), fl(d["inputs"] + self.extras(n)), fl(d["outputs"]),
                                   hx(d["tag"].encode()), hx(d["contents"].encode())]) for n, d in self.cmds.items())
         tg = ";".join("%s/%s" % (hx(t.encode()), fl(ns)) for t, ns in self.targets.items())
         return cmds, tg
@@ -152,6 +182,14 @@ class Project:
 
 
 # --------------------------------------------------------------------------------------------- generation
+
+def gen_deps(rng, k):
+    """1-3 dependency files, each naming 1-2 sources that the command reads without declaring them."""
+    deps = []
+    for i in range(rng.choice([1, 2, 2, 3])):
+        deps.append(["dep%d_%d.d" % (k, i), ["x%d_%d_%d" % (k, i, j) for j in range(rng.randint(1, 2))]])
+    return deps, rng.choice(["makefile", "makefile", "dependency-info"])
+
 
 def gen_project(rng):
     P = Project()
@@ -188,6 +226,8 @@ def gen_project(rng):
                 outs.insert(rng.randint(0, len(outs)), v)
                 virtuals.append(v)
             P.cmds["C%d" % k] = dict(tool="shell", inputs=ins, outputs=outs, tag="T%d" % k, contents="")
+            if rng.random() < 0.22:
+                P.cmds["C%d" % k]["deps"], P.cmds["C%d" % k]["deps_style"] = gen_deps(rng, k)
             for o in outs:
                 if not is_virtual(o):
                     files.append(o)
@@ -251,6 +291,7 @@ class History:
         self.dirty_sources = set()    # sources written by the harness since the last successful build that reached them
         self.dirty_outputs = set()    # outputs tampered with since the last successful build that reached their producer
         self.nbuilds = 0
+        self.inodes_seen = {}     # source -> inode numbers the path has had (replacement op)
         self.ever_ran = set()     # commands that executed at least once in the sandbox
         self.soft = {}            # directory output -> counter of modifications of entries inside it
         self.entry_modified = set()   # directory outputs with an entry overwritten since their producer last ran
@@ -330,6 +371,9 @@ class History:
                 ins.append(("virt", n))
             else:
                 ins.append(("src", n, self.P.version.get(n)))
+        for x in self.P.extras(c):
+            ins.append(("src", x, self.P.version.get(x)))
+        ins.append(("deps", repr(d.get("deps")), d.get("deps_style")))
         outs = tuple((o, self.tamper.get(o, 0), self.soft.get(o, 0)) for o in d["outputs"] if not is_virtual(o))
         memo[c] = hash((c, d["tool"], tuple(d["inputs"]), tuple(d["outputs"]), d["tag"], d["contents"], tuple(ins), outs))
         return memo[c]
@@ -338,9 +382,10 @@ class History:
         d = self.P.cmds[c]
         # the symlink tool only orders itself after its inputs (mustFollow): an edited input does not re-run it
         srcs = {} if d["tool"] == "symlink" else \
-            {n: self.P.version.get(n) for n in d["inputs"] if not is_virtual(n) and not self.P.producers(n)}
+            {n: self.P.version.get(n) for n in d["inputs"] + self.P.extras(c) if not is_virtual(n) and not self.P.producers(n)}
         outs = tuple((o, self.tamper.get(o, 0)) for o in d["outputs"] if not is_virtual(o))
-        return dict(defn=(d["tool"], tuple(d["inputs"]), tuple(d["outputs"]), d["tag"], d["contents"]), srcs=srcs, outs=outs)
+        return dict(defn=(d["tool"], tuple(d["inputs"]), tuple(d["outputs"]), d["tag"], d["contents"], repr(d.get("deps")), d.get("deps_style")),
+                    srcs=srcs, outs=outs)
 
     # ---- mutations
     def ensure_sources_exist(self):
@@ -358,7 +403,7 @@ class History:
                                "garbage_same_mtime", "nothing", "change_args", "add_command", "remove_command", "rewire_input",
                                "source_to_produced", "source_to_produced", "produced_to_source", "add_output", "change_link",
                                "dir_delete_entry", "dir_add_entry", "dir_modify_entry", "virtual_gains_producer", "virtual_gains_producer",
-                               "virtual_loses_producer"])
+                               "virtual_loses_producer", "edit_discovered_source", "edit_discovered_source", "replace_source_same_stat"])
             r = getattr(self, "m_" + kind)()
             if r is not None:
                 self.pending.append(kind)
@@ -378,6 +423,54 @@ class History:
             return None
         n = self.rng.choice(c)
         self.write_source(n, "edit-%s-%d;" % (n, self.P.fresh()))
+        return n
+
+    def m_edit_discovered_source(self):
+        # a source that a command reads without declaring it (named only in one of its dependency files), fresh mtime
+        c = []
+        for cn in self.P.cmds:
+            for i, (f, xs) in enumerate(self.P.cmds[cn].get("deps", [])):
+                for x in xs:
+                    if os.path.isfile(self.path(x)):
+                        c += [x] * (1 if i == 0 else 3)        # mostly the ones named in the 2nd / 3rd file only
+        if not c:
+            return None
+        x = self.rng.choice(c)
+        self.write_source(x, "disc-%s-%d;" % (x, self.P.fresh()))
+        return x
+
+    def m_replace_source_same_stat(self):
+        # the source is REPLACED by another file (new inode) with the same size and the same mtime, other content
+        c = [n for n in self.file_sources() if os.path.getsize(self.path(n)) > 0]
+        if not c:
+            return None
+        n = self.rng.choice(c)
+        p = self.path(n)
+        st = os.stat(p)
+        old = open(p, "rb").read()
+        first = b"ABCDEFGHIJKLMNOPQRSTUVWXYZ"[self.P.fresh() % 26:][:1]
+        new = (first if first != old[:1] else b"#") + old[1:]
+        # the file system may hand a freed inode number out again: the replacement must carry an inode this path never had,
+        # otherwise the edit would not be observable
+        seen = self.inodes_seen.setdefault(n, set())
+        seen.add(st.st_ino)
+        placeholders = []
+        while True:
+            tmp = p + ".replacement%d" % len(placeholders)
+            with open(tmp, "wb") as f:
+                f.write(new)
+            if os.stat(tmp).st_ino not in seen:
+                break
+            placeholders.append(tmp)
+        os.utime(tmp, ns=(st.st_atime_ns, st.st_mtime_ns))
+        os.rename(tmp, p)
+        for q in placeholders:
+            os.unlink(q)
+        st2 = os.stat(p)
+        seen.add(st2.st_ino)
+        assert st2.st_ino != st.st_ino and st2.st_size == st.st_size and st2.st_mtime_ns == st.st_mtime_ns
+        self.P.version[n] = self.P.fresh()
+        self.dirty_sources.add(n)
         return n
 
     def m_edit_source_same_mtime(self):
@@ -550,6 +643,8 @@ class History:
             ins = self.rng.sample(pool, min(len(pool), self.rng.randint(1, 3)))
             outs = ["o%d_%d" % (k, j) for j in range(self.rng.choice([1, 2]))]
             Q.cmds["C%d" % k] = dict(tool="shell", inputs=ins, outputs=outs, tag="T%d" % k, contents="")
+            if self.rng.random() < 0.3:
+                Q.cmds["C%d" % k]["deps"], Q.cmds["C%d" % k]["deps_style"] = gen_deps(self.rng, k)
             allc = Q.cmds.pop("C.all")
             allc["inputs"] = allc["inputs"] + outs
             Q.cmds["C.all"] = allc
@@ -1026,7 +1121,8 @@ def finish(chk):
         "observable edits: every harness write changes a FileInfo field the code compares (fresh explicit mtime, or same mtime and different size); "
         "commands' own writes get distinct kernel timestamps",
         "not modelled in Coq (exercised against the actual clean build only): shell commands with a directory output and directory-tree nodes; "
-        "not modelled nor exercised: discovered dependencies, stat/custom keys, command-timestamp nodes, link-output-path",
+        "discovered inputs (deps files, makefile and dependency-info styles, 1-3 files) are exercised against the actual clean build; the Coq model has no "
+        "discovery and is shown them as declared inputs; not modelled nor exercised: stat/custom keys, command-timestamp nodes, link-output-path",
         "a command that declares a directory as its output recreates it from scratch (rm -rf; mkdir; write entries): the directory is a function of the inputs",
         "signature injectivity is a premise of c08_description_edit* (ideal hash; proved for token lists in the signature area)"]
     builds = chk.cov.get("traces_validated_against_impl", 0) + chk.cov.get("failed_builds", 0)
@@ -1036,11 +1132,12 @@ def finish(chk):
     return chk.finish(level="proof",
                       rule="histories: a generated description (4-10 commands: shell one-liners writing tag+index+concatenated inputs, shell commands whose declared output "
                            "is a directory they recreate and populate (as directory node 'g/' or as plain node), consumers of such directories, phony, mkdir, symlink; "
-                           "virtual nodes with and without producer; multiple outputs; targets sharing sub-graphs) followed by 5-7 builds, each after 0-2 mutations drawn from "
+                           "shell commands with 1-3 dependency files naming undeclared sources they read; virtual nodes with and without producer; multiple outputs; targets sharing sub-graphs) followed by 5-7 builds, each after 0-2 mutations drawn from "
                            "{edit source (fresh mtime | same mtime, other size), delete output, delete LAST output, overwrite output (fresh mtime | same mtime, other size), "
                            "delete / add / overwrite an entry INSIDE a produced directory (explicit mtimes), "
                            "nothing, change args, add command, add output, remove command, rewire input, source->produced, produced->source, change link, "
-                           "virtual input gains a producer with a file output, virtual node loses its producer}; "
+                           "virtual input gains a producer with a file output, virtual node loses its producer, edit a discovered-only source, "
+                           "replace a source by another inode with the same size and mtime}; "
                            "each build picks the default target / a second target / a single node and --serial or parallel, over one database in new processes. "
                            "After every successful build: reachable outputs (entries of produced directories included) == actual clean build == model clean; run log vs "
                            "must-run / must-not-run sets; model validity verdicts on the stored values; model signature tokens <-> stored signatures one-to-one. "
